@@ -458,19 +458,23 @@ let cmd_cr (a : sx list) : string =
                 | _ -> failwith "bad mode") in
       (match cr_open rs with
        | Ok ((entries, sy), r1) ->
-           (match frozen sch with
-            | Ok fs ->
-                let items = cr_run fs De.cfg_default sy (sx_target tgt) (nat_of_int (int_of_string (atom maxc)))
-                              { cr_state = RNotInBlock r1; cr_pretend_eof = false } in
-                (* stop after the second eof like the harness *)
-                let rec cut eofs = function
-                  | [] -> []
-                  | IEof :: rest -> if eofs >= 1 then [IEof] else IEof :: cut (eofs + 1) rest
-                  | x :: rest -> x :: cut eofs rest in
-                let meta = L.sort compare (L.map (fun (k, v) -> (hex k, hex v)) entries) in
-                "(ok (meta" ^ String.concat "" (L.map (fun (k, v) -> " (" ^ k ^ " " ^ v ^ ")") meta) ^ ")"
-                ^ String.concat "" (L.map (fun i -> " " ^ show_item i) (cut 0 items)) ^ ")"
-            | _ -> "(bad-schema)")
+           (match header_meta entries with
+            | Ok ((json, codec), user) ->
+                if hex codec <> "x6e756c6c" then "(unmodelled)" else
+                (match frozen sch with
+                 | Ok fs ->
+                     let items = cr_run fs De.cfg_default sy (sx_target tgt) (nat_of_int (int_of_string (atom maxc)))
+                                   { cr_state = RNotInBlock r1; cr_pretend_eof = false } in
+                     (* stop after the second eof like the harness *)
+                     let rec cut eofs = function
+                       | [] -> []
+                       | IEof :: rest -> if eofs >= 1 then [IEof] else IEof :: cut (eofs + 1) rest
+                       | x :: rest -> x :: cut eofs rest in
+                     let meta = L.sort compare (L.map (fun (k, v) -> (hex k, hex v)) user) in
+                     "(ok " ^ hex json ^ " (meta" ^ String.concat "" (L.map (fun (k, v) -> " (" ^ k ^ " " ^ v ^ ")") meta) ^ ")"
+                     ^ String.concat "" (L.map (fun i -> " " ^ show_item i) (cut 0 items)) ^ ")"
+                 | _ -> "(bad-schema)")
+            | _ -> "(open-err)")
        | Err _ -> "(open-err)"
        | Panic _ -> "(panic)"
        | _ -> "(unmodelled)")
